@@ -37,7 +37,8 @@ TIERS = {
 CWD = '/w'
 HOME = '/home/u'
 # ways of placing "INC" (an include of all documents) below a key; path = where the merged content must appear
-UNDER_SHAPES = ['key', 'deep', 'merge_anc', 'del_anc', 'force_anc', 'weak_anc', 'in_list', 'merge_list', 'multidoc', 'deep_multidoc']
+UNDER_SHAPES = ['key', 'deep', 'merge_anc', 'del_anc', 'force_anc', 'weak_anc', 'in_list', 'merge_list', 'multidoc', 'deep_multidoc',
+                'rec', 'rec_deep', 'rec']
 _UNDER = {
     'key': ('{wrapped: INC}', ['wrapped']),
     'deep': ('{outer: {mid: {wrapped: INC}}}', ['outer', 'mid', 'wrapped']),
@@ -49,6 +50,9 @@ _UNDER = {
     'merge_list': ('{lst: !merge [INC, 1]}', ['lst', 0]),
     'multidoc': ('{wrapped: INC}', ['wrapped']),
     'deep_multidoc': ('{outer: !merge {mid: [INC]}}', ['outer', 'mid', 0]),
+    # the lazy include: files are read (and looked up) when the node is evaluated
+    'rec': ('{wrapped: REC}', ['wrapped']),
+    'rec_deep': ('{outer: {mid: {wrapped: REC}}}', ['outer', 'mid', 'wrapped']),   # (!rec inside a list is not supported by the library)
 }
 PATH_FORMS = ['file', 'parent', 'parent(0)', 'parent(1)', 'parent(2)', 'parent(5)', 'cwd', 'abs(/opt/data)', '']
 
@@ -132,7 +136,7 @@ def _gen_plan(r, n, kind=None):
         if size > 1 and dk in ('file', 'text_fn', 'stream'):
             dk = r.choice(['multidoc', 'include_list', 'include_docs', 'nested'])
         d = {'kind': dk, 'docs': block, 'id': k, 'dir': r.choice(_DIRS), 'name_how': r.choice(['abs', 'abs', 'rel_cwd', 'home']),
-             'file_dirs': [r.choice(['same', 'same', 'sub', 'up', 'cwd_only', 'both', 'elsewhere', 'home']) for _ in block],
+             'file_dirs': [r.choice(['same', 'same', 'sub', 'up', 'cwd_only', 'both', 'elsewhere', 'home', 'custom']) for _ in block],
              'mid_dir': r.choice(_DIRS), 'seed': r.getrandbits(30)}
         deliveries.append(d)
         k += 1
@@ -202,6 +206,8 @@ def _place(base_dir, how, fname):
         return f'{base_dir}/{fname}', f'{CWD}/{fname}'
     if how == 'elsewhere':
         return f'/srv/data/{fname}', None
+    if how == 'custom':
+        return f'{EXTRA_DIR}/{fname}', None
     if how == 'home':
         return f'{HOME}/inc/{fname}', None
     return f'{base_dir}/{fname}', None
@@ -221,8 +227,11 @@ def materialise(sc, plan, wrap_key=None):
     includes = []
     decoys = {}
     if wrap_key is not None:
+        fdirs = (plan[0]['file_dirs'] * len(docs))[:len(docs)]
+        if wrap_key.startswith('rec'):
+            fdirs = ['elsewhere' if h == 'home' else ('same' if h == 'custom' else h) for h in fdirs]   # !rec neither expands ~ nor uses the caller's Builder subclass
         plan = [{'kind': 'include_list', 'docs': list(range(len(docs))), 'id': 0, 'dir': plan[0]['dir'], 'name_how': plan[0]['name_how'],
-                 'file_dirs': (plan[0]['file_dirs'] * len(docs))[:len(docs)], 'mid_dir': plan[0]['mid_dir'], 'seed': plan[0]['seed']}]
+                 'file_dirs': fdirs, 'mid_dir': plan[0]['mid_dir'], 'seed': plan[0]['seed']}]
     for d in plan:
         r = random.Random(d['seed'])
         kind = d['kind']
@@ -285,7 +294,7 @@ def materialise(sc, plan, wrap_key=None):
             if decoy is not None and decoy != real:
                 files[decoy] = emit.emit_doc(m({f'decoy_{tag}_{i}': s('WRONG COPY')}))
                 decoys[decoy] = real
-            if how in ('same', 'both'):
+            if how in ('same', 'both', 'custom'):
                 name = fname
             elif how == 'sub':
                 name = f'inc/{fname}'
@@ -314,7 +323,8 @@ def materialise(sc, plan, wrap_key=None):
                     where[i] = multi
                 includes[:] = [{'from': inc_from, 'name': f'{tag}_all_docs.yaml', 'target': multi}]
                 inc = f'!include {tag}_all_docs.yaml'
-            body = _UNDER[wrap_key][0].replace('INC', inc) + '\n'
+            rec = '!rec [' + ', '.join(emit.scalar_text(nm) for nm in names) + ']'
+            body = _UNDER[wrap_key][0].replace('INC', inc).replace('REC', rec) + '\n'
         files[inc_from] = body
         calls.append({'path': _src_name(master, d['name_how']), 'raw_yaml': r.choice([None, False])})
     return {'files': files, 'calls': calls, 'where': where, 'includes': includes, 'decoys': decoys}
@@ -348,6 +358,7 @@ def lookup_model(files, inc_from, name):
     if inc_from is not None:
         dirs.append(posixpath.dirname(inc_from))
     dirs.append(CWD)
+    dirs.append(EXTRA_DIR)
     for d in dirs:
         cand = posixpath.normpath(posixpath.join(d, name))
         if cand in files:
@@ -401,6 +412,18 @@ def _mask_paths(v):
     return v
 
 
+EXTRA_DIR = '/lookup/extra'
+
+
+def _custom_builder(Builder):
+    """The documented customisation point: a Builder subclass adding one more lookup directory (after the standard two)."""
+    class SearchPathBuilder(Builder):
+        def get_lookup_dirs(self, ref_point):
+            yield from super().get_lookup_dirs(ref_point)
+            yield EXTRA_DIR
+    return SearchPathBuilder
+
+
 def _child(files, calls, fs_faults, pre_calls, entry='builder'):
     from awesomeyaml import Builder, Config, errors
     import io
@@ -431,7 +454,7 @@ def _child(files, calls, fs_faults, pre_calls, entry='builder'):
                 out['paths'] = paths
                 out['cfg'] = observe.native(_mask_paths(cfg))
                 raise _Done()
-            b = Builder()
+            b = _custom_builder(Builder)()
             for c in pre_calls:
                 try:
                     add(b, c)
@@ -585,7 +608,7 @@ def execute(sc):
                     break
                 if not _check_paths(sc, mat, obs, res, label):
                     break
-                if all('path' in c for c in mat['calls']) and pi == 0:
+                if all('path' in c for c in mat['calls']) and pi == 0 and not any(h == 'custom' for d in plan for h in d['file_dirs']):
                     ob2 = _run(mat, entry='cmdline')
                     st['runs'] += 1
                     count(probes, 'entry:build_from_cmdline')
@@ -871,7 +894,7 @@ def reach_problems(stats, tier):
     probs = []
     pr = stats.get('probes', {})
     for need in ('delivery:multidoc', 'delivery:include_list', 'delivery:include_docs', 'delivery:nested', 'delivery:under_key',
-                 'layout:both', 'layout:cwd_only', 'layout:sub', 'layout:up', 'layout:home'):
+                 'layout:both', 'layout:cwd_only', 'layout:sub', 'layout:up', 'layout:home', 'layout:custom', 'under:rec'):
         if not pr.get(need):
             probs.append(f'probe {need} never fired')
     f = stats.get('faults', {})
